@@ -24,6 +24,12 @@ CHECKS = {
  "C17": dict(cat="exploration", sec="5.17", tech="exhaustive enumeration of whole input domains (2^24 AMF ids, 2^24 SDs, 1.1M PLMNs, all PCO lists <=3 units) with reference encoders and inverse checks",
    text="Whole-domain sweeps where the domain is finite (PLMN, AMF-ID, SST, SD) and structured alphabets for addresses and PCO lists, each compared with the 3GPP encoding written independently and with inverse(conversion(x)) == x.",
    note="IPv4-mapped IPv6 texts excluded; PCO ids/contents from a small alphabet"),
+ "C03": dict(cat="exploration", sec="5.3", tech="deviation-bounded exhaustive enumeration of NGAP values (all single deviations per message type; pairs in thorough) against an independent X.691 encoder",
+   text="For each of the ~100 NGAP message and transfer-container types the all-present default value and every value that moves <=1 (quick) / <=2 (thorough) leaves to another member of its boundary alphabet, plus a complete primitive sweep over synthetic types (every range size 1..257 and the large ranges, every bit offset), negative (out-of-constraint) values that must be refused, and fragmented lengths; every library encoding is compared byte for byte with an independent ALIGNED PER encoder driven by a frozen schema.",
+   note="frozen schema = hand-corrected transcription of the pinned struct tags (mc/spec/NOTES.md); refper written from X.691; empty strings under a constrained length not generated"),
+ "C04": dict(cat="exploration", sec="5.4", tech="same bounded exhaustive enumeration; oracle = round trip through the library and through an independent encoder's bytes",
+   text="Same enumeration as C03 with two oracles: decode(encode(v)) equals v field by field, and the independent encoder's canonical bytes are accepted, decode to v and re-encode to the same bytes (the half the library cannot satisfy by being symmetric with itself).",
+   note="normalisation: unused bits of a BIT STRING's last octet are masked before comparison (DESIGN.md 5.4); values outside the root of an extensible constraint are outside the claim"),
 }
 
 NOT_YET = {}
